@@ -30,3 +30,7 @@ def check(repo, rep, tier):
     rep.run(rx.rule_lookups_agree, em, rep, 'C09.M6')
     from .. import rules_state as rs
     rep.run(rs.rule_deref_closure, em, rep, 'C09.M7')
+    # = and the other goals of compiled code are loops over query(name, args): nothing is compiled to a one-way assignment
+    from .. import rules_compile as rc
+    from .. import rules_clause as rcl
+    rep.run(rcl.rule_calls_late_bound, rc.CompilerModel(repo), rep, 'C09.M8')
